@@ -167,7 +167,7 @@ class MathCheck:
 
     def build(self, prop):
         run, skipped = vlib.runnable_archs()
-        res, errs = vlib.build_modules("math", run)
+        res, errs = vlib.build_modules("complex" if "--complex" in self.extra_args else "math", run)
         if errs:
             for a, log in errs.items():
                 sys.stderr.write("---- build of harness math for %s failed ----\n%s\n" % (a, log[-4000:]))
@@ -794,6 +794,9 @@ CHECKS = {
         "quick": "per integer element type and architecture (lane counts 2..64): one-hot and all-but-one packs for every lane (a subset of 14 lanes for 32/64), arange, reverse, constant, alternating, extremes incl. the most negative value, 8 seed packs; the same for Boolean packs incl. mask() for <= 32 lanes; 3 generators; 8 binary + 2 unary operators on 5 pack pairs, 5 Boolean operators + 2 unary on 4 pairs; all 22 architectures",
         "thorough": "32 seed packs per type; the thorough mask families of C05 for the constant APIs"}),
     "C20": GeometryCheck(),
+    "C16": MathCheck("float,double", "every operand tuple of the log-polar grid is executed by every architecture's complex kernel (operands travel as separate real/imaginary arrays) and each component is compared with std::complex<long double> / the textbook formula within the property's tolerance; premises (finite operands, no intermediate overflow, |Re|,|Im| <= 20 for tan/tanh) are applied as filters; states = operand tuples; transitions = lane results judged", {
+        "quick": "moduli 2^k, k in [-40,40] step 2 (float) / [-300,300] step 12 (double) x 64 arguments, the four axes with both signs of the zero part, +-1 ulp off each axis, moderate box points, 64 seed points; binary operations on a thinned grid^2 (about 225 000 pairs), fused forms on a small grid^3 (about 250 000 triples), pow with 11 real exponents, polar over 129 angles; all 22 architectures",
+        "thorough": "same grid (complete for its definition)"}, extra_args=["--complex"]),
     "C17": Elementwise(["scalar"], RULE_EW + "; the scalar overloads are run one element per call and judged by the same reference models as the batch lanes (so scalar == batch wherever the model is single-valued); NaN operands are outside the property", {
         "quick": "the C01/C02/C03/C06/C07/C08 operand spaces (8-bit pairs exhaustive, ALL16 x L16, lattices^2, every shift/rotate count, fp lattices, rounding windows) for add, sub, mul, div, mod, neg, abs, min, max, sadd, ssub, avg, avgr, incr/decr(_if), bitwise operators, shifts, rotates, comparisons, select, is_flint/is_even/is_odd, fma family, nearbyint_as_int, bitwise_cast, clip, pow with 21 integer exponents (scalar and batch forms against the shared square-and-multiply model); all 22 architectures' compile flags",
         "thorough": "as quick with the thorough spaces of the underlying properties"}),
